@@ -76,6 +76,7 @@ package client
 //@   makechan 0 tag streamId class client.handlers
 //@   atcall[C01.request_envelope C06.unary_request C05.fresh_id] (types.RpcReadWriter).Write :
 //@     | arg2 != nil && arg2.Id == streamId && arg2.Header == header && arg2.Body == body && arg2.Status == nil && arg2.Trailer == nil && arg2.Reset_ == nil && arg1 == ctx
+//@   atcall[C05.id_from_atomic_counter] client.(*RpcMultiplexer).registerHandler : arg1 == streamId && streamId == lastret("sync/atomic.AddUint64")
 //@   ensures[C06.unary_request_once C01.one_request] ncalls("(types.RpcReadWriter).Write") <= old(ncalls("(types.RpcReadWriter).Write")) + 1
 //@   ensures[C14.released C05.released] bound("streamId") ==> !(streamId in rm.handlers)
 //@   ensures[C13.success_only_with_data C03.result_wellformed C09.no_fabricated_success] result.1 == nil ==> result.0 != nil
@@ -89,6 +90,7 @@ package client
 //@   inline
 //@   nopanic[C13.nopanic C14.nopanic]
 //@   makechan 0 tag streamId class client.handlers
+//@   atcall[C05.id_from_atomic_counter] client.(*RpcMultiplexer).registerHandler : arg1 == streamId && streamId == lastret("sync/atomic.AddUint64")
 //@   ensures[C09.fail_fast C14.nothing_left_on_error] result.3 != nil ==> result.1 == nil && result.2 == nil && (bound("streamId") ==> !(streamId in rm.handlers))
 //@   ensures[C06.no_write_on_open_of_reader] ncalls("(types.RpcReadWriter).Write") == old(ncalls("(types.RpcReadWriter).Write"))
 //@   ensures[C05.fresh_registration] result.3 == nil ==> result.1 != nil && result.2 != nil && result.0 in rm.handlers && tag(rm.handlers[result.0]) == result.0
